@@ -92,6 +92,7 @@ func newEnv(rng *rand.Rand, res *worker.Result, o envOpts) (*env, error) {
 	}
 	v.h, v.reg, v.repo = h, h.Reg, h.Repo
 	v.reg.KeepHeaders = true
+	v.installRangeFaults()
 	v.host = strings.TrimPrefix(h.Server.URL, "http://")
 
 	// Repository options
